@@ -51,6 +51,7 @@ def helpers():
         d = _TL.h = {}
     return d
 _IDENT = re.compile(r"^[A-Za-z_][A-Za-z0-9_]*$")
+_KEYWORDS = {"if", "else", "match", "return", "while", "let", "in", "for", "loop", "break", "continue", "mut", "ref", "move", "as", "where", "unsafe"}
 
 
 def find_helper(repo, name):
@@ -97,7 +98,27 @@ def find_helper(repo, name):
                                 names.append(pr[0])
                             else:
                                 names = None; break
-                        found.append({"params": names, "has_self": has_self, "body": toks[j + 1:bc], "where": f"{os.path.relpath(os.path.join(dp, f), repo)}: fn {name}"})
+                        # the impl the method sits in: `Self` inside the body means that type once the body stands in another place
+                        self_ty, depth, q = None, 0, i - 1
+                        while q >= 0:
+                            if toks[q] == "}": depth += 1
+                            elif toks[q] == "{":
+                                if depth == 0:
+                                    r0 = q - 1
+                                    while r0 >= 0 and toks[r0] not in ("impl", "}", ";", "{"):
+                                        r0 -= 1
+                                    if r0 >= 0 and toks[r0] == "impl":
+                                        hdr = toks[r0 + 1:q]
+                                        if "for" in hdr:
+                                            hdr = hdr[hdr.index("for") + 1:]
+                                        hdr = [x for x in hdr if x not in ("&",)]
+                                        if hdr and _IDENT.match(hdr[-1] if "<" not in hdr else hdr[0]):
+                                            self_ty = hdr[0] if "<" in hdr else hdr[-1]
+                                    break
+                                depth -= 1
+                            q -= 1
+                        hbody = [self_ty if (x == "Self" and self_ty) else x for x in toks[j + 1:bc]]
+                        found.append({"params": names, "has_self": has_self, "body": hbody, "where": f"{os.path.relpath(os.path.join(dp, f), repo)}: fn {name}"})
     if len(found) != 1:
         return None
     h = found[0]
@@ -140,6 +161,8 @@ def inline_helpers(toks, log):
                                     if depth == 0: break
                                 q -= 1
                             s = q
+                        elif t in _KEYWORDS:
+                            break                       # `if x.helper()`, `return x.helper()`, `match x.helper()`: the keyword is not part of the receiver
                         elif _IDENT.match(t) or t == "." or t == "::":
                             s -= 1
                         else:
